@@ -83,6 +83,14 @@ class CallMixin:
                 k = fresh_sort("wit", T.sort_of(x.ty.k))
                 st.assume(z3.Implies(r == 0, z3.ForAll([k], z3.Not(z3.Select(T.dict_dom(x.ty, x.t), k)))) if False else z3.BoolVal(True))
                 yield st, SV(T.Int, r)
+            elif isinstance(x.ty, T.Set):
+                # cardinality of a (finite) set: uninterpreted, with the two facts that matter - it is zero exactly when the set is empty
+                f = z3.Function("card_" + x.ty.name(), T.sort_of(x.ty), z3.IntSort())
+                r = f(x.t); st.assume(r >= 0)
+                k = z3.Const("k!card", T.sort_of(x.ty.k)); wit = fresh_sort("wit", T.sort_of(x.ty.k))
+                st.assume(z3.Implies(r == 0, z3.ForAll([k], z3.Not(z3.Select(x.t, k)))))
+                st.assume(z3.Implies(r > 0, z3.Select(x.t, wit)))
+                yield st, SV(T.Int, r)
             elif isinstance(x.ty, T.Obj): yield from self.call_method(st, x, "__len__", [], {}, node)
             else: raise VCError("len of %s" % x.ty)
         elif name == "str":
